@@ -1,5 +1,7 @@
 /- aggregator: property theorems of C01 plus the source-tie theorems regenerated from the C++
-   (whole functions setIdentity, matrix, composition, inverse; manifest of translated functions) -/
+   (whole functions setIdentity, matrix, composition, inverse; manifest of translated functions), plus the
+   rounding theorems in the standard model of floating-point arithmetic (C01Round) -/
 import SmoothProps.C01
+import SmoothProps.C01Round
 import SmoothProps.SrcTieImpl
 import SmoothProps.SrcTieImplC01
